@@ -8,6 +8,7 @@ import (
 	"net/http"
 	"net/url"
 	"os"
+	"os/exec"
 	"path/filepath"
 	"regexp"
 	"runtime"
@@ -713,6 +714,9 @@ func runC09(c *Ctx) {
 		}
 	})
 	close(stop)
+	if r.Thorough() {
+		c09NativeFuzz(r)
+	}
 	r.Set("status_code_histogram", statusCodes)
 	for _, s := range []string{"GET /fz-one/up/gaps?uploadId=<id>&part-number-marker=18446744073709551616", "PUT /fz-one/k  x-amz-copy-source: nobucket", "POST /fz-one/up/gaps?uploadId=<id> body=<Part><PartNumber>-1</PartNumber>…"} {
 		r.Sample(s)
@@ -818,4 +822,76 @@ func c09SetupHost(s *drv.Server, kind string, buckets []string) *c09State {
 		st.uploads = append(st.uploads, struct{ key, id string }{"up/gaps", init.UploadID})
 	}
 	return st
+}
+
+var fuzzExecs = regexp.MustCompile(`execs: (\d+)`)
+
+// c09NativeFuzz runs Go's coverage-guided fuzzer (FuzzRequest in
+// c09_fuzz_test.go) for a fixed number of executions with the same oracle.
+func c09NativeFuzz(r *rep.Reporter) {
+	n := 400000
+	if v := os.Getenv("VERIF_FUZZ_EXECS"); v != "" {
+		fmt.Sscan(v, &n)
+	}
+	cmd := exec.Command("go", "test", "-tags", "verif", "-run", "^$", "-fuzz", "^FuzzRequest$", "-fuzztime", fmt.Sprintf("%dx", n), "-timeout", "3h", "./checks/")
+	cmd.Dir = filepath.Join(rep.Root, "harness")
+	cmd.Env = append(os.Environ(), "GOFLAGS=-mod=mod", "GOPROXY=off", "GOSUMDB=off", "GOTOOLCHAIN=local", "VERIF_CHILD=")
+	out, err := cmd.CombinedOutput()
+	text := string(out)
+	execs := 0
+	for _, m := range fuzzExecs.FindAllStringSubmatch(text, -1) {
+		var v int
+		fmt.Sscan(m[1], &v)
+		if v > execs {
+			execs = v
+		}
+	}
+	r.Set("native_fuzz_executions", execs)
+	r.Count("native_fuzz_executions", execs)
+	r.Eval(execs)
+	if err == nil {
+		return
+	}
+	if strings.Contains(text, "--- FAIL") || strings.Contains(text, "Failing input written to") {
+		crasher := ""
+		if i := strings.Index(text, "Failing input written to "); i >= 0 {
+			crasher = strings.TrimSpace(strings.SplitN(text[i+len("Failing input written to "):], "\n", 2)[0])
+		}
+		anom := "fuzz-failure"
+		for _, a := range []string{"panic", "canary-failed", "error-body-not-s3-document", "code-status-mismatch", "status-out-of-range", "error-document-on-success"} {
+			if strings.Contains(text, "C09 "+a) {
+				anom = a
+			}
+		}
+		saved := ""
+		if crasher != "" {
+			src := filepath.Join(rep.Root, "harness", "checks", crasher)
+			if b, rerr := os.ReadFile(src); rerr == nil {
+				saved = filepath.Join(rep.Root, "out", "C09", "fuzz-crasher-"+filepath.Base(crasher))
+				os.MkdirAll(filepath.Dir(saved), 0755)
+				os.WriteFile(saved, b, 0644)
+				os.Remove(src)
+			}
+		}
+		r.Violation(sig("C09", "any", anom, "native-fuzz"), "the coverage-guided fuzzer found a request that breaks the C09 oracle: "+clip(firstFailLine(text), 600),
+			map[string]interface{}{"go_test_output_tail": clip(tailString(text, 4000), 4000), "crasher": saved})
+		return
+	}
+	r.Inconclusive("native fuzzing could not run: " + clip(tailString(text, 600), 600))
+}
+
+func firstFailLine(s string) string {
+	for _, l := range strings.Split(s, "\n") {
+		if strings.Contains(l, "C09 ") {
+			return strings.TrimSpace(l)
+		}
+	}
+	return ""
+}
+
+func tailString(s string, n int) string {
+	if len(s) > n {
+		return s[len(s)-n:]
+	}
+	return s
 }
